@@ -16,12 +16,27 @@ use vh::*;
 
 const ENABLE_ALL: u32 = 0x0100 | 0x0400 | 0x0800;
 
+thread_local! {
+    /// build the argument tree with maximal node sharing (equal sub-trees = one node): no operator may depend on it
+    static SHARE: std::cell::Cell<bool> = const { std::cell::Cell::new(false) };
+}
+
+/// the same call with the arguments stored with maximal sharing; the event carries "share": true
+fn emit_call_shared(out: &mut Out, case: u64, opb: &[u8], args: &Value, fl: u32, max: u64) -> Value {
+    SHARE.with(|c| c.set(true));
+    let ev = emit_call(out, case, "shared", opb, args, fl, max, Some(("share", json!(true))));
+    SHARE.with(|c| c.set(false));
+    ev
+}
+
 fn call(opb: &[u8], args: &Value, flag_bits: u32, max: u64, big: &[(usize, usize)]) -> Value {
     // big: (argument index, length) pairs materialised as zero... no: 0x01-filled atoms
     let r = catch(|| {
         let mut a = Allocator::new();
         let o = a.new_atom(opb).unwrap();
-        let args_node = if big.is_empty() {
+        let args_node = if SHARE.with(|c| c.get()) && big.is_empty() {
+            json_tree_shared(&mut a, args).unwrap()
+        } else if big.is_empty() {
             json_tree(&mut a, args).unwrap()
         } else {
             build_with_big(&mut a, args)
@@ -418,6 +433,15 @@ fn rand_args(r: &mut Rng, op: u8, big: bool) -> Value {
                     let n = *r.pick(&[63usize, 64, 65, 300, 700, 2000]);
                     let big = atom_json(&r.bytes(n));
                     items[0] = if r.chance(1, 2) { big } else { json!({"f": items[0].clone(), "r": big}) };
+                } else if r.chance(1, 3) {
+                    // doubling: T_k = (T_{k-1} . T_{k-1}) over a small tree (equal sub-trees at every level)
+                    let leaves = 1 + r.below(3) as usize;
+                    let mut t = rand_tree(r, leaves, 4, 6);
+                    let levels = 1 + r.below(6);
+                    for _ in 0..levels {
+                        t = json!({"f": t.clone(), "r": t});
+                    }
+                    items[0] = t;
                 }
             }
         }
@@ -523,6 +547,9 @@ fn main() {
                             let big = fl & 0x0240 != 0 && r.chance(1, 3);
                             let a = rand_args(&mut r, op, big);
                             budget_variants(&mut out, &mut r, case, &[op], &a, fl);
+                            if !has_big(&a) && (op == 63 || r.chance(1, 5)) {
+                                emit_call_shared(&mut out, case, &[op], &a, fl, u64::MAX);
+                            }
                         }
                     }
                 }
@@ -660,6 +687,14 @@ fn main() {
                 };
                 if !good {
                     out.emit(&json!({"case": c, "got": got}));
+                } else if !has_big(&c["args"]) {
+                    // the same call with equal argument sub-trees stored as one node
+                    SHARE.with(|s| s.set(true));
+                    let got2 = call(&opb, &c["args"], json_flags(&c["flags"]), max, &[]);
+                    SHARE.with(|s| s.set(false));
+                    if got2 != got {
+                        out.emit(&json!({"case": c, "got": got2, "shared": true}));
+                    }
                 }
             }
             out.emit(&json!({"done": n}));
